@@ -1227,35 +1227,74 @@ theorem descObj_perm : ∀ (kvs : List (Bytes × JV)), (descObj kvs).Perm (below
     exact List.Perm.append h1 (descObj_perm r)
 end
 
-/-- slice.go `startEndStep` with the two slice flags off is the normalisation of get.go -/
-theorem locate_ses_eq (cfg : Cfg) (hn : cfg.locNegEnd = false) (hc : cfg.locStartClamp = false)
-    (n : Nat) (s e t : Option Int) : Locate.ses cfg n s e t = Get.norm true n s e t := by
-  rw [norm_eq]
-  unfold Locate.ses
-  simp only [hn, hc, Bool.not_false, Bool.true_and, Bool.false_eq_true, ↓reduceIte, decide_eq_true_eq]
-  by_cases h0 : t.getD 1 = 0
-  · simp [h0]
-  · have hst : (if s.getD 0 < 0 then if (n : Int) + s.getD 0 < 0 then 0 else (n : Int) + s.getD 0 else s.getD 0) = nStart n s := rfl
-    simp only [h0, ↓reduceIte, hst]
-    have hs0 := nStart_nonneg n s
-    by_cases hle : (n : Int) ≤ nStart n s
-    · by_cases hemp : (!cfg.locEmptyArray && decide (n = 0)) = true <;> simp [hle, hemp]
-    · have hemp : (!cfg.locEmptyArray && decide (n = 0)) = false := by
-        have : n ≠ 0 := by omega
-        simp [this]
-      simp only [hle, hemp, Bool.false_eq_true, ↓reduceIte]
-      have h1 : (if (if s.getD 0 < 0 then (n : Int) + s.getD 0 else if (n : Int) ≤ s.getD 0 then (n : Int) - 1 else s.getD 0) < 0 then 0
-          else if s.getD 0 < 0 then (n : Int) + s.getD 0 else if (n : Int) ≤ s.getD 0 then (n : Int) - 1 else s.getD 0) = nStart n s := by
-        unfold nStart at hle ⊢
-        split at hle <;> (repeat' split) <;> omega
-      have h2 : (if e.getD maxEnd < 0 then
-            if (n : Int) + e.getD maxEnd < -1 ∧ t.getD 1 < 0 then -1 else (n : Int) + e.getD maxEnd
-          else if (n : Int) < e.getD maxEnd then (n : Int) else e.getD maxEnd) = nStop true n e t := by
-        unfold nStop
-        simp only [Bool.or_true, Bool.true_and, decide_eq_true_eq, Bool.and_eq_true]
-        (repeat' split) <;> omega
-      rw [h1, h2]
+/-- fragments on which the start clamp of slice.go `startEndStep` cannot matter: no slice, or a slice whose
+start is absent, 0 or negative (a start `≥ size` is what gets clamped) -/
+def lowStart : Frag → Bool
+  | .slice s _ _ => decide (s.getD 0 ≤ 0)
+  | _ => true
 
+/-- the `locStartClamp` deviation is off, or out of the way for this fragment -/
+def ClampFree (cfg : Cfg) (f : Frag) : Prop :=
+  cfg.locStartClamp = false ∨ (cfg.locEmptyArray = false ∧ lowStart f = true)
+
+theorem locate_ses_stop (n : Nat) (e t : Option Int) :
+    (if e.getD maxEnd < 0 then
+        if (n : Int) + e.getD maxEnd < -1 ∧ t.getD 1 < 0 then -1 else (n : Int) + e.getD maxEnd
+      else if (n : Int) < e.getD maxEnd then (n : Int) else e.getD maxEnd) = nStop true n e t := by
+  unfold nStop
+  simp only [Bool.or_true, Bool.true_and, decide_eq_true_eq, Bool.and_eq_true]
+  (repeat' split) <;> omega
+
+/-- slice.go `startEndStep` is the normalisation of get.go: with `locNegEnd` off, and `locStartClamp` off
+or (empty arrays handled) a start that is not positive -/
+theorem locate_ses_eq (cfg : Cfg) (hn : cfg.locNegEnd = false) (n : Nat) (s e t : Option Int)
+    (hc : cfg.locStartClamp = false ∨ (cfg.locEmptyArray = false ∧ s.getD 0 ≤ 0)) :
+    Locate.ses cfg n s e t = Get.norm true n s e t := by
+  have hst : (if s.getD 0 < 0 then if (n : Int) + s.getD 0 < 0 then 0 else (n : Int) + s.getD 0 else s.getD 0) = nStart n s := rfl
+  have hs0 := nStart_nonneg n s
+  by_cases hcl : cfg.locStartClamp = false
+  · rw [norm_eq]
+    unfold Locate.ses
+    simp only [hn, hcl, Bool.not_false, Bool.true_and, Bool.false_eq_true, ↓reduceIte, decide_eq_true_eq]
+    by_cases h0 : t.getD 1 = 0
+    · simp [h0]
+    · simp only [h0, ↓reduceIte, hst]
+      by_cases hle : (n : Int) ≤ nStart n s
+      · by_cases hemp : (!cfg.locEmptyArray && decide (n = 0)) = true <;> simp [hle, hemp]
+      · have hemp : (!cfg.locEmptyArray && decide (n = 0)) = false := by
+          have : n ≠ 0 := by omega
+          simp [this]
+        simp only [hle, hemp, Bool.false_eq_true, ↓reduceIte]
+        have h1 : (if (if s.getD 0 < 0 then (n : Int) + s.getD 0 else if (n : Int) ≤ s.getD 0 then (n : Int) - 1 else s.getD 0) < 0 then 0
+            else if s.getD 0 < 0 then (n : Int) + s.getD 0 else if (n : Int) ≤ s.getD 0 then (n : Int) - 1 else s.getD 0) = nStart n s := by
+          unfold nStart at hle ⊢
+          split at hle <;> (repeat' split) <;> omega
+        rw [h1, locate_ses_stop]
+  · have hct : cfg.locStartClamp = true := by simpa using hcl
+    obtain ⟨hy, hlow⟩ : cfg.locEmptyArray = false ∧ s.getD 0 ≤ 0 := by
+      rcases hc with h | h
+      · exact absurd h hcl
+      · exact h
+    rw [norm_eq]
+    unfold Locate.ses
+    simp only [hn, hct, hy, Bool.not_false, Bool.not_true, Bool.true_and, Bool.false_and, Bool.false_eq_true,
+      ↓reduceIte, decide_eq_true_eq]
+    by_cases h0 : t.getD 1 = 0
+    · simp [h0]
+    · simp only [h0, ↓reduceIte]
+      by_cases hn0 : n = 0
+      · subst hn0
+        have hle : ((0 : Nat) : Int) ≤ nStart 0 s := by omega
+        simp [hs0]
+      · have hle : ¬ (n : Int) ≤ nStart n s := by
+          unfold nStart
+          (repeat' split) <;> omega
+        simp only [hn0, hle, ↓reduceIte]
+        have h1 : (if (if s.getD 0 < 0 then (n : Int) + s.getD 0 else if (n : Int) ≤ s.getD 0 then (n : Int) - 1 else s.getD 0) < 0 then 0
+            else if s.getD 0 < 0 then (n : Int) + s.getD 0 else if (n : Int) ≤ s.getD 0 then (n : Int) - 1 else s.getD 0) = nStart n s := by
+          unfold nStart
+          (repeat' split) <;> omega
+        rw [h1, locate_ses_stop]
 
 theorem loopUp_lt (m : Nat) (i stop step : Int) : ∀ j ∈ loopUp m i stop step, j < stop := by
   induction m generalizing i with
@@ -1299,10 +1338,14 @@ theorem modelIdx_lt (n : Nat) (s e t : Option Int) : ∀ i ∈ modelIdx true n s
         have := loopDown_le _ _ _ _ (by omega) i hi
         omega
 
-theorem locate_sliceIdx_eq (cfg : Cfg) (hn : cfg.locNegEnd = false) (hc : cfg.locStartClamp = false)
-    (n : Nat) (s e t : Option Int) : Locate.sliceIdx cfg n s e t = modelIdx true n s e t := by
+theorem locate_sliceIdx_eq (cfg : Cfg) (hn : cfg.locNegEnd = false) (n : Nat) (s e t : Option Int)
+    (hc : ClampFree cfg (.slice s e t)) : Locate.sliceIdx cfg n s e t = modelIdx true n s e t := by
+  have hc' : cfg.locStartClamp = false ∨ (cfg.locEmptyArray = false ∧ s.getD 0 ≤ 0) := by
+    rcases hc with h | ⟨h1, h2⟩
+    · exact Or.inl h
+    · exact Or.inr ⟨h1, by simpa [lowStart] using h2⟩
   unfold Locate.sliceIdx modelIdx
-  rw [locate_ses_eq cfg hn hc, norm_eq]
+  rw [locate_ses_eq cfg hn n s e t hc', norm_eq]
   by_cases h0 : t.getD 1 = 0
   · simp [h0]
   · by_cases hst : (n : Int) ≤ nStart n s
@@ -1327,8 +1370,8 @@ theorem sliceLast_arr (s e t : Option Int) (xs : List JV) :
   cases Get.norm true xs.length s e t <;> simp
 
 /-- Locate, last position, slice flags off: what the fragment denotes, up to order -/
-theorem locate_last_perm (cfg : Cfg) (hn : cfg.locNegEnd = false) (hc : cfg.locStartClamp = false)
-    (f : Frag) (v : JV) (hlen : ∀ xs, v = .arr xs → (xs.length : Int) ≤ maxEnd) :
+theorem locate_last_perm (cfg : Cfg) (hn : cfg.locNegEnd = false)
+    (f : Frag) (hc : ClampFree cfg f) (v : JV) (hlen : ∀ xs, v = .arr xs → (xs.length : Int) ≤ maxEnd) :
     (Locate.last cfg Rep.simple f v).Perm (sel f v) := by
   cases f with
   | descent =>
@@ -1347,20 +1390,20 @@ theorem locate_last_perm (cfg : Cfg) (hn : cfg.locNegEnd = false) (hc : cfg.locS
     rw [← last_eq_sel cfg (.slice s e t) v rfl hlen]
     cases v with
     | arr xs =>
-      simp only [Locate.last, Get.last, locate_sliceIdx_eq cfg hn hc, sliceLast_arr]
+      simp only [Locate.last, Get.last, locate_sliceIdx_eq cfg hn _ s e t hc, sliceLast_arr]
       rw [flatMap_congr' _ _ (elemAt xs)]
       intro i hi
       exact elemOrPhantom_eq xs i (modelIdx_nonneg true _ s e t i hi) (modelIdx_lt _ s e t i hi)
     | _ => simp [Locate.last, Get.last, Get.sliceLast]
 
 /-- no index fault with the slice flags off -/
-theorem locate_faultHere (cfg : Cfg) (hn : cfg.locNegEnd = false) (hc : cfg.locStartClamp = false)
-    (f : Frag) (v : JV) : Locate.faultHere cfg f v = false := by
+theorem locate_faultHere (cfg : Cfg) (hn : cfg.locNegEnd = false)
+    (f : Frag) (hc : ClampFree cfg f) (v : JV) : Locate.faultHere cfg f v = false := by
   cases f with
   | slice s e t =>
     cases v with
     | arr xs =>
-      simp only [Locate.faultHere, locate_sliceIdx_eq cfg hn hc, List.any_eq_false, Bool.or_eq_true, decide_eq_true_eq, not_or]
+      simp only [Locate.faultHere, locate_sliceIdx_eq cfg hn _ s e t hc, List.any_eq_false, Bool.or_eq_true, decide_eq_true_eq, not_or]
       intro i hi
       have := modelIdx_nonneg true _ s e t i hi
       have := modelIdx_lt _ s e t i hi
@@ -1368,14 +1411,14 @@ theorem locate_faultHere (cfg : Cfg) (hn : cfg.locNegEnd = false) (hc : cfg.locS
     | _ => simp [Locate.faultHere]
   | _ => simp [Locate.faultHere]
 
-theorem locate_fault (cfg : Cfg) (hn : cfg.locNegEnd = false) (hc : cfg.locStartClamp = false) :
-    ∀ (x : List Frag) (v : JV), Locate.fault cfg Rep.simple x v = false
-  | [], _ => rfl
-  | [f], v => by simp [Locate.fault, Rep.simple, AK.typed]
-  | f :: g :: r, v => by
-    simp only [Locate.fault, locate_faultHere cfg hn hc, Bool.false_or, List.any_eq_false]
+theorem locate_fault (cfg : Cfg) (hn : cfg.locNegEnd = false) :
+    ∀ (x : List Frag) (v : JV), (∀ f ∈ x, ClampFree cfg f) → Locate.fault cfg Rep.simple x v = false
+  | [], _, _ => rfl
+  | [f], v, _ => by simp [Locate.fault, Rep.simple, AK.typed]
+  | f :: g :: r, v, hc => by
+    simp only [Locate.fault, locate_faultHere cfg hn f (hc f (by simp)), Bool.false_or, List.any_eq_false]
     intro m _
-    simp [locate_fault cfg hn hc (g :: r) m.2]
+    simp [locate_fault cfg hn (g :: r) m.2 (fun f' hf' => hc f' (List.mem_cons_of_mem _ hf'))]
 
 theorem flatMap_filter_vanish {α β : Type} (l : List α) (P : α → Bool) (G : α → List β)
     (h : ∀ a, P a = false → G a = []) : (l.filter P).flatMap G = l.flatMap G := by
@@ -1388,17 +1431,18 @@ theorem flatMap_filter_vanish {α β : Type} (l : List α) (P : α → Bool) (G 
       simp [List.filter_cons, hp', ih, h a hp']
 
 /-- **Locate reports exactly the locations the path denotes** (as a multiset; with the slice flags off) -/
-theorem locate_perm_eval (cfg : Cfg) (hn : cfg.locNegEnd = false) (hc : cfg.locStartClamp = false) :
-    ∀ (x : List Frag) (v : JV), endsInDescent x = false → (jsize v : Int) ≤ maxEnd →
+theorem locate_perm_eval (cfg : Cfg) (hn : cfg.locNegEnd = false) :
+    ∀ (x : List Frag) (v : JV), (∀ f ∈ x, ClampFree cfg f) → endsInDescent x = false → (jsize v : Int) ≤ maxEnd →
       (evalSel (Locate.sel cfg Rep.simple) false x v).Perm (eval x v)
-  | [], v, _, _ => by simp [evalSel, eval]
-  | [f], v, _, hz => by
-    have h := locate_last_perm cfg hn hc f v (arr_len_le v _ hz)
+  | [], v, _, _, _ => by simp [evalSel, eval]
+  | [f], v, hc, _, hz => by
+    have h := locate_last_perm cfg hn f (hc f (by simp)) v (arr_len_le v _ hz)
     simpa [evalSel, eval, Locate.sel] using h
-  | f :: g :: r, v, ht, hz => by
+  | f :: g :: r, v, hc, ht, hz => by
     have hlen := arr_len_le v _ hz
     have ht' : endsInDescent (g :: r) = false := by simpa [endsInDescent] using ht
-    have hlast := locate_last_perm cfg hn hc f v hlen
+    have hc' : ∀ f' ∈ g :: r, ClampFree cfg f' := fun f' hf' => hc f' (List.mem_cons_of_mem _ hf')
+    have hlast := locate_last_perm cfg hn f (hc f (by simp)) v hlen
     rw [evalSel]
     simp only [Bool.false_and, Bool.false_eq_true, ↓reduceIte]
     let G : Path × JV → List (Path × JV) := fun m => pre m.1 (eval (g :: r) m.2)
@@ -1419,7 +1463,7 @@ theorem locate_perm_eval (cfg : Cfg) (hn : cfg.locNegEnd = false) (hc : cfg.locS
       apply perm_flatMap_left
       intro m hm
       have hsz := sel_size f v m (hmemsel m hm)
-      exact (locate_perm_eval cfg hn hc (g :: r) m.2 ht' (by omega)).map _
+      exact (locate_perm_eval cfg hn (g :: r) m.2 hc' ht' (by omega)).map _
     -- 2. what is not handed on is a non-container, on which the rest yields nothing
     have h2 : ((Locate.sel cfg Rep.simple).inner f v).flatMap G = (Locate.last cfg Rep.simple f v).flatMap G := by
       simp only [Locate.sel, Locate.inner]
@@ -1438,8 +1482,8 @@ theorem locate_perm_eval (cfg : Cfg) (hn : cfg.locNegEnd = false) (hc : cfg.locS
 
 
 /-- Expr.Walk, a fragment other than a descent (slice flags off): what the fragment denotes -/
-theorem walk_last_eq (cfg : Cfg) (hn : cfg.locNegEnd = false) (hc : cfg.locStartClamp = false)
-    (f : Frag) (v : JV) (hf : isDescent f = false) (hlen : ∀ xs, v = .arr xs → (xs.length : Int) ≤ maxEnd) :
+theorem walk_last_eq (cfg : Cfg) (hn : cfg.locNegEnd = false)
+    (f : Frag) (hc : ClampFree cfg f) (v : JV) (hf : isDescent f = false) (hlen : ∀ xs, v = .arr xs → (xs.length : Int) ≤ maxEnd) :
     Walk.last cfg Rep.simple f v = sel f v := by
   rw [← last_eq_sel cfg f v hf hlen]
   cases f with
@@ -1456,7 +1500,7 @@ theorem walk_last_eq (cfg : Cfg) (hn : cfg.locNegEnd = false) (hc : cfg.locStart
       have hra : (cfg.walkTypedArray && decide (Rep.simple.ak = AK.rarray)) = false := by
         cases cfg.walkTypedArray <;> rfl
       simp only [Walk.last, Walk.slice, hra, Bool.false_eq_true, ↓reduceIte, Get.last, sliceLast_arr,
-        locate_sliceIdx_eq cfg hn hc]
+        locate_sliceIdx_eq cfg hn _ s e t hc]
       apply flatMap_congr'
       intro i hi
       exact mIdx_of_nonneg xs i (modelIdx_nonneg true _ s e t i hi) (modelIdx_lt _ s e t i hi)
@@ -1464,17 +1508,18 @@ theorem walk_last_eq (cfg : Cfg) (hn : cfg.locNegEnd = false) (hc : cfg.locStart
 
 /-- **Expr.Walk reports exactly the locations the path denotes** (as a multiset; slice flags and
 `walkDescentNoSelf` off) -/
-theorem walk_perm_eval (cfg : Cfg) (hn : cfg.locNegEnd = false) (hc : cfg.locStartClamp = false)
+theorem walk_perm_eval (cfg : Cfg) (hn : cfg.locNegEnd = false)
     (hw : cfg.walkDescentNoSelf = false) :
-    ∀ (x : List Frag) (v : JV), endsInDescent x = false → (jsize v : Int) ≤ maxEnd →
+    ∀ (x : List Frag) (v : JV), (∀ f ∈ x, ClampFree cfg f) → endsInDescent x = false → (jsize v : Int) ≤ maxEnd →
       (evalSel (Walk.sel cfg Rep.simple) false x v).Perm (eval x v)
-  | [], v, _, _ => by simp [evalSel, eval]
-  | [f], v, ht, hz => by
+  | [], v, _, _, _ => by simp [evalSel, eval]
+  | [f], v, hc, ht, hz => by
     have hf : isDescent f = false := by simpa [endsInDescent] using ht
     simp only [evalSel, eval, Walk.sel]
-    rw [walk_last_eq cfg hn hc f v hf (arr_len_le v _ hz)]
+    rw [walk_last_eq cfg hn f (hc f (by simp)) v hf (arr_len_le v _ hz)]
     simp
-  | f :: g :: r, v, ht, hz => by
+  | f :: g :: r, v, hc, ht, hz => by
+    have hc' : ∀ f' ∈ g :: r, ClampFree cfg f' := fun f' hf' => hc f' (List.mem_cons_of_mem _ hf')
     have hlen := arr_len_le v _ hz
     have ht' : endsInDescent (g :: r) = false := by simpa [endsInDescent] using ht
     rw [evalSel]
@@ -1491,14 +1536,14 @@ theorem walk_perm_eval (cfg : Cfg) (hn : cfg.locNegEnd = false) (hc : cfg.locSta
           cases f with
           | descent => simp [isDescent] at hf'
           | _ => rfl
-        rw [this, walk_last_eq cfg hn hc f v hf' hlen]
+        rw [this, walk_last_eq cfg hn f (hc f (by simp)) v hf' hlen]
     have h1 : ((Walk.sel cfg Rep.simple).inner f v).flatMap
           (fun m => pre m.1 (evalSel (Walk.sel cfg Rep.simple) false (g :: r) m.2))
         |>.Perm (((Walk.sel cfg Rep.simple).inner f v).flatMap G) := by
       apply perm_flatMap_left
       intro m hm
       have hsz := sel_size f v m (hinner.mem_iff.mp hm)
-      exact (walk_perm_eval cfg hn hc hw (g :: r) m.2 ht' (by omega)).map _
+      exact (walk_perm_eval cfg hn hw (g :: r) m.2 hc' ht' (by omega)).map _
     have h3 : (((Walk.sel cfg Rep.simple).inner f v).flatMap G).Perm ((sel f v).flatMap G) :=
       List.Perm.flatMap_right G hinner
     have h4 : (sel f v).flatMap G = eval (f :: g :: r) v := by simp [eval, G, pre]
